@@ -87,6 +87,10 @@ impl Prop for C01 {
         ]
     }
 
+    fn fuzz_targets(&self) -> Vec<(&'static str, u64)> {
+        vec![("fuzz_writer", 40_000)]
+    }
+
     fn run(&self, spec: &FileSpec, obs: &mut Obs) -> Check {
         let entries = spec.src.entries();
         let n = entries.len();
